@@ -225,11 +225,18 @@ class Case:
         if wait and p._putlock is not None and p._putlock._value == 0:
             return 'Blocked'       # the real call would wait for a slot
         d = self.new_cb()
+        nth = len(self.jobs)
+
+        def accept(pid, t):
+            d['acc'].append(self.pidref(pid))
+            if self.cfg.get('accept_raises') and nth % 2 == 1:
+                raise RuntimeError('accept callback of job %d raises' % nth)    # a user callback may raise
+
         r = p.apply_async(
             abs, (1,), soft_timeout=soft, timeout=hard, lost_worker_timeout=lost, waitforslot=slot,
-            callback=lambda v: d['succ'].append(canon_value(None, True, v, {})),
-            error_callback=lambda v: d['err'].append(1),
-            accept_callback=lambda pid, t: d['acc'].append(self.pidref(pid)),
+            callback=lambda v: (d['succ'].append(canon_value(None, True, v, {})), d.__setitem__('sem_at_cb', p._putlock._value)),
+            error_callback=lambda v: (d['err'].append(1), d.__setitem__('sem_at_cb', p._putlock._value)),
+            accept_callback=accept,
             timeout_callback=lambda soft, timeout: d['tmo'].append([bool(soft), timeout]),
         )
         self.jobs.append(r)
@@ -536,6 +543,7 @@ class Case:
                              acc=acc, wpids=list(dict.fromkeys(self.pidref(x) for x in j.worker_pids())),
                              val=val, lost=[wl[0], wl[1]] if wl else None,
                              cb=[len(cb['succ']), len(cb['err']), len(cb['acc']), [list(x) for x in cb['tmo']]],
+                             sem_at_cb=cb.get('sem_at_cb'),
                              extra=extra))
         workers = [[w.ref, w.index, bool(w._controlled_termination), bool(getattr(w, '_job_terminated', False)),
                     p._on_ready_counters[w.pid].value if w.pid in p._on_ready_counters else None]
